@@ -268,14 +268,11 @@ func runC05(w *World, c *Check) {
 		c.Decide(ok, "C05.sibling", FuncKey(fn), "layout", w.Pos(fn.Pos()), "the RC4 message is checksum ‖ ciphertext", "no success return of that shape")
 	}
 	hl := `\(crypto/etype\.EType\.GetHMACBitLength\(e\) / 8\)`
+	// (deriveKeys, where it exists, is rendered in place: see inlineAlways)
+	k3d := `crypto/rfc4757\.HMAC\(` + k2 + `, data\[:` + hl + `\]\)`
 	checkCalls(w, c, "C05.sibling", "crypto/rfc4757.DecryptMessage", []CallSpec{
-		{Name: "rc4-derive", Desc: "K2, K3 derived from the key, the message's leading checksum and the usage", Callee: `crypto/rfc4757\.deriveKeys`, Want: `crypto/rfc4757\.deriveKeys\(key, data\[:` + hl + `\], usage, export\)`},
-		{Name: "rc4-decrypt-k3", Desc: "the bytes after the checksum are decrypted under K3", Callee: `crypto/rfc4757\.DecryptData`, Want: `crypto/rfc4757\.DecryptData\(crypto/rfc4757\.deriveKeys\(.*\)#2, data\[` + hl + `:\], e\)`},
-		{Name: "rc4-verify-k2", Desc: "integrity verified with K2 over the decrypted bytes against the message", Callee: `crypto/rfc4757\.VerifyIntegrity`, Want: `crypto/rfc4757\.VerifyIntegrity\(crypto/rfc4757\.deriveKeys\(.*\)#1, crypto/rfc4757\.DecryptData\(.*\)#0, data, e\)`},
-	})
-	checkCalls(w, c, "C05.sibling", "crypto/rfc4757.deriveKeys", []CallSpec{
-		{Name: "rc4-k2", Desc: "K2 = HMAC(K1, message type)", Callee: `crypto/rfc4757\.HMAC`, Want: k2},
-		{Name: "rc4-k3", Desc: "K3 = HMAC(K2, checksum)", Callee: `crypto/rfc4757\.HMAC`, Want: `crypto/rfc4757\.HMAC\(` + k2 + `, checksum\)`},
+		{Name: "rc4-decrypt-k3", Desc: "the bytes after the checksum are decrypted under K3 = HMAC(K2, the message's leading checksum), K2 = HMAC(key, message type)", Callee: `crypto/rfc4757\.DecryptData`, Want: `crypto/rfc4757\.DecryptData\(` + k3d + `, data\[` + hl + `:\], e\)`},
+		{Name: "rc4-verify-k2", Desc: "integrity verified with K2 over the decrypted bytes against the message", Callee: `crypto/rfc4757\.VerifyIntegrity`, Want: `crypto/rfc4757\.VerifyIntegrity\(` + k2 + `, crypto/rfc4757\.DecryptData\(.*\)#0, data, e\)`},
 	})
 
 	// ---- rule 6: GetEncryptedData ----------------------------------------------------
